@@ -149,6 +149,18 @@ func (w *c01world) mutations(s *c01state) []*c01state {
 		mk("venv:rename["+n+"]", func(c *c01state) { c.Venv[n+"x"] = c.Venv[n]; delete(c.Venv, n) })
 	}
 	mk("venv:add-unrelated", func(c *c01state) { c.Venv["ANOTHER"] = "x" })
+	// an unrelated variable named like a signed field, carrying the value that was signed for that field: neutral on its
+	// own; together with a change of that field it must not make the changed step verify
+	if _, has := s.Venv["command"]; !has {
+		if cmd := w.signedStep.Get("command"); cmd != nil && cmd.K == docgen.KStr {
+			v := cmd.S
+			mk("venv:add-named-like-field[command]", func(c *c01state) { c.Venv["command"] = v })
+		}
+	}
+	if _, has := s.Venv["repository_url"]; !has {
+		v := w.in.Repo
+		mk("venv:add-named-like-field[repository_url]", func(c *c01state) { c.Venv["repository_url"] = v })
+	}
 	// move a variable between step env and pipeline env
 	if e := s.Step.Get("env"); e != nil && e.K == docgen.KMap {
 		for i, n := range e.Keys {
@@ -458,7 +470,7 @@ func init() {
 		Rule: "explicit-state BFS over the mutation graph of signed states (step JSON, verification env, repository URL, signature record, key): from five signed initial states (minimal; rich with nested plugin configs, " +
 			"step env, matrix with adjustments, pipeline env of three variables one of them shadowed; anonymous matrix with empty step env; adjustment-only matrix with an empty-valued pipeline variable), every single-point " +
 			"mutation at every position is a transition (per string: change first char, drop last / middle char, append, append space, prepend newline; per collection: remove, duplicate, swap adjacent, reorder, append, empty, " +
-			"rename key, key/value and item/item boundary shifts; scalar re-typing; nil/empty and short/canonical spellings; unsigned fields; env: change / remove / empty / rename each variable, add unrelated, move variables " +
+			"rename key, key/value and item/item boundary shifts; scalar re-typing; nil/empty and short/canonical spellings; unsigned fields; env: change / remove / empty / rename each variable, add unrelated, add a variable named like the signed field command / repository_url carrying the signed value, move variables " +
 			"between step env and pipeline env; repository URL; record: 8 algorithm names, drop / rename each field, add env:: or unknown fields, corrupt / truncate / strip / splice the value, splice whole records; key: second key " +
 			"of the same kind and kid, keys of the other kinds); depth 2 with EdDSA (includes mutate-then-revert and neutral-then-semantic; thorough: depth 3 from two small initial states), depth 1 (thorough: partly 2) with ES512, PS512 and an ES256 crypto.Signer. " +
 			"Invariant in every state: Verify == nil <=> harness canonical form == signed form and record original and key the signing key. States deduplicated on the full state; non-trivial = every mutated state.",
